@@ -279,6 +279,45 @@ func TestGovcReplayRoundTrip(t *testing.T) {
 }
 `
 		return runOverlayTest(rep, "pkg/paillier", "zz_govc_replay_roundtrip_test.go", src, "TestGovcReplayRoundTrip")
+	case "pkg/math/polynomial:lagrange", "pkg/math/polynomial:Lagrange", "pkg/math/polynomial:LagrangeFor", "pkg/math/polynomial:getScalarsAndNumerator":
+		src := `package polynomial
+
+import (
+	"crypto/rand"
+	"testing"
+
+	"github.com/taurusgroup/multi-party-sig/pkg/math/curve"
+	"github.com/taurusgroup/multi-party-sig/pkg/math/sample"
+	"github.com/taurusgroup/multi-party-sig/pkg/party"
+)
+
+// shares of a random polynomial of degree 2, recombined with the coefficients of every subset of 3 and 4 of 5 parties,
+// must give back the secret - in the field and in the exponent
+func TestGovcReplayLagrange(t *testing.T) {
+	group := curve.Secp256k1{}
+	secret := sample.Scalar(rand.Reader, group)
+	f := NewPolynomial(group, 2, secret)
+	all := []party.ID{"a", "b", "c", "d", "e"}
+	subsets := [][]party.ID{{"a", "b", "c"}, {"c", "d", "e"}, {"e", "a", "c"}, {"b", "d", "e", "a"}, all}
+	for _, ids := range subsets {
+		coeffs := Lagrange(group, ids)
+		sum := group.NewScalar()
+		pub := group.NewPoint()
+		for _, id := range ids {
+			share := f.Evaluate(id.Scalar(group))
+			sum.Add(group.NewScalar().Set(coeffs[id]).Mul(share))
+			pub = pub.Add(coeffs[id].Act(share.ActOnBase()))
+		}
+		if !sum.Equal(secret) {
+			t.Fatalf("shares of %v recombine to %v, the secret is %v", ids, sum, secret)
+		}
+		if !pub.Equal(secret.ActOnBase()) {
+			t.Fatalf("public shares of %v do not recombine to the public key", ids)
+		}
+	}
+}
+`
+		return runOverlayTest(rep, "pkg/math/polynomial", "zz_govc_replay_lagrange_test.go", src, "TestGovcReplayLagrange")
 	case "internal/mta:newMta":
 		src := `package mta
 
